@@ -61,7 +61,7 @@ checks = {
     text="Reuse histories (Garble/Release/double Release/Garble with sync.Pool.Get free to return any released scratch) and interleavings of 2-3 goroutines on one fresh shared circuit, with preemption before and after every atomic/pool operation up to a stated budget, are explored exhaustively on the real Garble/garbleScratchPool/Release/Eval/Compute code; every garbling must evaluate to the plain result, live garblings never share buffers, no call fails. Data races proper (no happens-before tracking) are outside the claim.",
     ref="DESIGN.md C17", engine="gosymx"),
  "C20": dict(cat="other", tech="bounded symbolic execution of go/ssa + SMT (z3): symbolic labels/operands; big.Int Mul/Mod as uninterpreted functions with Mod's contract (all moduli) and exact bit-vector arithmetic (small primes)",
-    text="BMR: the real FxSend/FxReceive/FxkSend/FxkReceive over an ideal OT with symbolic a, b, label s and randomness: r xor xb = a*b and = b*s for every value. VOLE: the real Sender.Mul || Receiver.Mul over a real p2p.Pipe and the real IKNP extension: (1) for every modulus and operands below 2^256, with Mul/Mod uninterpreted, the receiver's u_i is the term (r_i + x_i*(y_i mod p) mod p) mod p over the sender's own r_i (m = 1, 3x2; thorough 9); (2) with exact arithmetic for p in {2,3,7,13} (thorough 251) u_i - r_i = x_i*y_i mod p for all field elements.",
+    text="BMR: the real FxSend/FxReceive/FxkSend/FxkReceive over an ideal OT with symbolic a, b, label s and randomness: r xor xb = a*b and = b*s for every value. VOLE: the real Sender.Mul || Receiver.Mul over a real p2p.Pipe and the real IKNP extension: (1) for every modulus and operands below 2^256, with Mul/Mod uninterpreted, the receiver's u_i is the term (r_i + x_i*(y_i mod p) mod p) mod p over the sender's own r_i (m = 1, 3x2; thorough 9); (2) with exact arithmetic for p in {2,3,7,13} u_i - r_i = x_i*y_i mod p for all field elements.",
     ref="DESIGN.md C20", engine="gosymx"),
  "C18": dict(cat="other", tech="bounded symbolic execution of go/ssa + SMT (z3): Round-3 codec at the real fixed sizes with symbolic boundary labels, wrong-length and corrupted-magic buffers",
     text="PARTIAL: only the Round-3 codec (EncodeRound3/DecodeRound3 and the four section codecs) and the bit/byte helpers. decode(encode(p)) = p with the documented fixed size and canonical re-encoding, with session id, key and the first/last label of every section symbolic; wrong-length buffers (11 deltas around the label size) and every single-bit corruption of the magic are rejected with an error, never a panic. The four-round protocol, the Round1/2/session codecs (elliptic-curve arithmetic) and the SHA-256 equivalence of the embedded circuit (miter does not close) are NOT claimed.",
